@@ -1,0 +1,6 @@
+//go:build vectors && !verif
+// +build vectors,!verif
+
+package zap
+
+func verifVecCacheGate() {}
